@@ -120,6 +120,10 @@ func startSession(cfg e2eConfig) *e2eSession {
 		}
 	} else {
 		opts = append(opts, exec.Local)
+		if cfg.mc {
+			// the local executor with the machine-combiner compilation option (shared combine keys in one process)
+			opts = append(opts, exec.MachineCombiners)
+		}
 	}
 	s.sess = exec.Start(opts...)
 	return s
@@ -209,11 +213,21 @@ func (s *e2eSession) runProgram(ctx context.Context, prog string, results []*exe
 	}
 	fn := progFunc0
 	args := []interface{}{run, full}
+	excl := strings.Contains(prog, "EXCLUSIVE")
+	if excl {
+		fn = progFunc0x
+	}
 	switch len(results) {
 	case 1:
 		fn = progFunc1
+		if excl {
+			fn = progFunc1x
+		}
 	case 2:
 		fn = progFunc2
+		if excl {
+			fn = progFunc2x
+		}
 	}
 	for _, r := range results {
 		args = append(args, r)
